@@ -30,6 +30,9 @@ def run_property(prop, repo_root="/repo", timeout=10, verbose=False, scope=None)
     for key, c in table.items():
         if c.assumed:
             continue
+        if getattr(c, "is_lemma", False):
+            reports.append(verify_lemma(repo, table, c))
+            continue
         rep = verify_function(repo, table, c, scope=scope)
         if rep.unsupported:
             rep.obligations = []      # partial exploration: nothing of it is reported as checked
@@ -136,6 +139,31 @@ def finite_scope_search(prop, oid, repo_root, per_query_ms=5000):
                     return dict(function=c.key, scope=scope, violated=ob.oid, where=ob.where, inputs=inputs,
                                 variant=repr(getattr(ob, "variant", None)))
     return None
+
+
+def verify_lemma(repo, table, c):
+    """a lemma over contracts: no code is executed; c.lemma(E) returns named goals (with hypotheses assumed through E)"""
+    from .api import FuncReport, make_registry
+    from .engine import Exec
+    import time as _t
+    rep = FuncReport(c.key)
+    rep.sha = "lemma"
+    t0 = _t.time()
+    E = Exec(repo, table, make_registry(), prop=c.prop)
+    E.top = c
+
+    def run_one(E):
+        for name, g in c.lemma(E).items():
+            E.oblige("%s.lemma.%s.%s" % (c.prop, c.name, name), g, "lemma")
+        for name, g in getattr(c, "lemma_canaries", lambda E: {})(E).items():
+            E.oblige("%s.lemma.%s.canary.%s" % (c.prop, c.name, name), g, "canary", canary=True)
+    try:
+        E.explore(run_one)
+    except Exception as e:
+        rep.unsupported = "lemma failed to build: %r" % (e,)
+    rep.paths, rep.obligations, rep.seconds = E.paths, E.obligations, _t.time() - t0
+    rep.lemmas, rep.externs, rep.assumptions = E.used_lemmas, E.used_externs, E.assumptions_used
+    return rep
 
 
 def aggregate(allob, res):
